@@ -5,7 +5,11 @@ Correspondence: two real bolt stores with a link collection and a ref-counted li
 between them (harness c05.go) against the extracted model: bounded-exhaustive SetLinks (every
 current set x every requested list) and seeded random histories of 1-40 operations in several
 transactions; after every transaction GetLinks / IsLinked / IterateLinks / raw bucket /
-GetLinkCounts / GetLinkCount / raw count bucket on both sides for every universe id."""
+GetLinkCounts / GetLinkCount / raw count bucket on both sides for every universe id.
+T cases: the same over parent / child store hierarchies (model Links/HierMachine.v, harness c05_hier.go):
+each side is a root store with plain / Extended child stores, the collection pairs are registered on
+stores of any level, creates and deletes go through any store of a family; the property clauses are
+evaluated per pair on the implementation's own observation."""
 import json
 import os
 import time
@@ -36,9 +40,12 @@ class Toks:
         return [self.next() for _ in range(n)]
 
 
-def parse_op(t):
+def parse_op(t, hier=False):
     kind = t.next()
+    w = int(t.next()) if hier else None
     op = dict(kind=kind, sd=t.next(), a=t.next(), keys=[], count=None)
+    if hier:
+        op["w"] = w  # store level for C / D, pair index for the link and count operations
     if kind in ("AL", "RL", "SL"):
         op["keys"] = t.ids()
     elif kind in ("A1", "R1", "I", "DC"):
@@ -51,6 +58,8 @@ def parse_op(t):
 
 def op_text(op):
     s = "%s %s %s" % (op["kind"], op["sd"], op["a"])
+    if op.get("w") is not None:
+        s = "%s %d %s %s" % (op["kind"], op["w"], op["sd"], op["a"])
     if op["kind"] in ("AL", "RL", "SL"):
         s += " %d" % len(op["keys"]) + "".join(" " + k for k in op["keys"])
     elif op["kind"] in ("A1", "R1", "I", "DC"):
@@ -63,6 +72,20 @@ def op_text(op):
 def parse_case(line):
     t = Toks(line)
     kind = t.next()
+    if kind == "T":
+        kids = {}
+        for sd in "AB":
+            n = int(t.next())
+            kids[sd] = [t.next() == "1" for _ in range(n)]
+        n = int(t.next())
+        pairs = [(int(t.next()), int(t.next())) for _ in range(n)]
+        uA, uB = t.ids(), t.ids()
+        ntx = int(t.next())
+        txs = []
+        for _ in range(ntx):
+            n = int(t.next())
+            txs.append([parse_op(t, True) for _ in range(n)])
+        return dict(kind="T", kids=kids, pairs=pairs, uA=uA, uB=uB, txs=txs)
     uA, uB = t.ids(), t.ids()
     if kind == "H":
         ntx = int(t.next())
@@ -77,8 +100,17 @@ def parse_case(line):
                 txs=[[dict(kind="SL", sd=sd, a=a, keys=req, count=None)]])
 
 
-def history_text(uA, uB, txs):
-    s = "H %d%s %d%s %d" % (len(uA), "".join(" " + x for x in uA), len(uB), "".join(" " + x for x in uB), len(txs))
+def topo_text(case):
+    s = ""
+    for sd in "AB":
+        s += "%d%s " % (len(case["kids"][sd]), "".join(" 1" if e else " 0" for e in case["kids"][sd]))
+    return s + "%d%s" % (len(case["pairs"]), "".join(" %d %d" % p for p in case["pairs"]))
+
+
+def history_text(case, txs):
+    uA, uB = case["uA"], case["uB"]
+    head = "H" if case["kind"] != "T" else "T " + topo_text(case)
+    s = "%s %d%s %d%s %d" % (head, len(uA), "".join(" " + x for x in uA), len(uB), "".join(" " + x for x in uB), len(txs))
     for tx in txs:
         s += " %d" % len(tx) + "".join(" " + op_text(op) for op in tx)
     return s
@@ -91,7 +123,13 @@ def unhex(h):
 def pretty_op(op):
     names = dict(C="Create", D="Delete", AL="AddLinks", RL="RemoveLinks", SL="SetLinks", A1="AddLink", R1="RemoveLink",
                  I="IncrementLinkCount", DC="DecrementLinkCount", SC="SetLinkCount")
-    s = "%s[%s](%r" % (names[op["kind"]], op["sd"], unhex(op["a"]))
+    where = op["sd"]
+    if op.get("w") is not None:
+        if op["kind"] in ("C", "D"):  # the store the call goes through
+            where += ".root" if op["w"] == 0 else ".child%d" % op["w"]
+        else:
+            where = "pair%d:%s" % (op["w"], op["sd"])
+    s = "%s[%s](%r" % (names[op["kind"]], where, unhex(op["a"]))
     if op["kind"] in ("AL", "RL", "SL"):
         s += ", %r" % [unhex(k) for k in op["keys"]]
     elif op["keys"]:
@@ -133,6 +171,51 @@ def parse_counts(s):
         k, _, v = item.partition("=")
         out[k] = v
     return out
+
+
+def parse_hblock(block):
+    """block of a T case -> (verdict, presence {A: [digits..], B: [..]}, [cell sides..]) ; cells None when malformed"""
+    parts = block.split(" | ")
+    toks = parts[0].split()
+    if not toks:
+        return "?", None, None
+    pres = {"A": [], "B": []}
+    cur = "A"
+    for tok in toks[1:]:
+        if tok == "/":
+            cur = "B"
+        elif tok.strip("01"):
+            return toks[0], None, None
+        else:
+            pres[cur].append(tok)
+    cells = []
+    for part in parts[1:]:
+        _, sides = parse_block("x " + part)
+        if sides is None:
+            return toks[0], pres, None
+        cells.append(sides)
+    return toks[0], pres, cells
+
+
+def hier_oracle(case, pres, cells, guard):
+    """the property clauses on the observation of a store hierarchy: every pair of collections by itself
+    (an entity the collection's store does not hold is a missing entity for it), and the stores of one
+    family agree on which entities exist"""
+    for sd in "AB":
+        for i, digits in enumerate(pres[sd]):
+            if digits[0] != "1" and "1" in digits:
+                return "C05:dangling-link", "%s[%d] is gone from the root store but a child store still holds it: levels %s" % (sd, i, digits)
+    for p, sides in enumerate(cells):
+        la, lb = case["pairs"][p] if p < len(case["pairs"]) else (0, 0)
+        for sd, lv in (("A", la), ("B", lb)):
+            for i, e in enumerate(sides[sd]):
+                if i < len(pres[sd]) and lv < len(pres[sd][i]) and e["p"] != pres[sd][i][lv]:
+                    return "C05:observers-disagree", "presence of %s[%d] in the store of pair %d differs from IsEntityPresent of level %d" % (sd, i, p, lv)
+        hit = property_oracle(case, sides, guard)
+        if hit:
+            names = ["root store" if lv == 0 else "child store %d" % lv for lv in (la, lb)]
+            return hit[0], "collections of pair %d (A: %s, B: %s): %s" % (p, names[0], names[1], hit[1])
+    return None
 
 
 def parse_block(block):
@@ -212,13 +295,20 @@ def classify(case, blocks_i, blocks_m):
         if bi == bm:
             prev = bi
             continue
-        vi, si = parse_block(bi)
-        vm, _ = parse_block(bm)
+        hier = case["kind"] == "T"
+        if hier:
+            vi, pi, ci = parse_hblock(bi)
+            vm, pm, cm = parse_hblock(bm)
+            si = None if ci is None else dict((sd, [dict(e, p=e["p"] + "@%d" % k) for k, c in enumerate(ci) for e in c[sd]] +
+                                                    [dict(p=d, gl=[]) for d in pi[sd]]) for sd in "AB")
+        else:
+            vi, si = parse_block(bi)
+            vm, _ = parse_block(bm)
         tx = case["txs"][n] if n < len(case["txs"]) else []
         where = "transaction %d [%s]" % (n, "; ".join(pretty_op(o) for o in tx))
         if si is None:
             return "C05:observer-failure", "the observers failed after %s: %s" % (where, bi[:300]), False
-        hit = property_oracle(case, si, guard)
+        hit = hier_oracle(case, pi, ci, guard) if hier else property_oracle(case, si, guard)
         if hit:
             return hit[0], "after %s: %s" % (where, hit[1]), False
         if vi != vm:
@@ -235,7 +325,11 @@ def classify(case, blocks_i, blocks_m):
         if vi.startswith("f") and prev is not None and bi.split(None, 1)[1:] != prev.split(None, 1)[1:]:
             return "C05:failed-tx-changed-state", "the failed %s changed the link state" % where, False
         kinds = set(o["kind"] for o in tx)
-        _, sm = parse_block(bm)
+        if hier:
+            sm = dict((sd, [dict(e, p=e["p"] + "@%d" % k) for k, c in enumerate(cm) for e in c[sd]] +
+                           [dict(p=d, gl=[]) for d in pm[sd]]) for sd in "AB")
+        else:
+            _, sm = parse_block(bm)
         links_differ = any(ei["gl"] != em["gl"] or ei["p"] != em["p"] for sd in "AB" for ei, em in zip(si[sd], sm[sd]))
         if links_differ and "SL" in kinds:
             return "C05:set-links-inexact", "after %s the link sets are not the requested ones: impl %s expected %s" % (where, bi[:400], bm[:400]), False
@@ -271,7 +365,7 @@ def run_both(c, harness, model, lines, tag):
 def shrink(c, harness, model, case, key):
     """greedy one-at-a-time removal of transactions / operations / list elements, keeping the same
     violation key; every round runs all candidates in one harness + one model invocation"""
-    if case["kind"] != "H":
+    if case["kind"] not in ("H", "T"):
         return case, None
     txs = [list(tx) for tx in case["txs"]]
     rounds = 0
@@ -300,7 +394,7 @@ def shrink(c, harness, model, case, key):
         cands = [x for x in cands if x]
         if not cands:
             break
-        lines = [history_text(case["uA"], case["uB"], x) for x in cands]
+        lines = [history_text(case, x) for x in cands]
         try:
             impl, modl = run_both(c, harness, model, lines, "shrink")
         except Exception:
@@ -328,15 +422,17 @@ def main(argv):
     c.cov["trusted_base"] = [
         "Coq 8.16.1 kernel (coqc; coqchk in the thorough tier); vm_compute in Examples only; no axioms",
         "hand-written models Links/LinkModel.v, SetLinksMerge.v, RefCount.v, LinkMachine.v of boltz/link_collection.go, "
-        "link_collection_rc.go, the link-count functions of typed_bucket.go and cleanupLinks/DeleteById of store_crud.go",
+        "link_collection_rc.go, the link-count functions of typed_bucket.go and cleanupLinks/DeleteById of store_crud.go; "
+        "Links/HierMachine.v of Create / DeleteById / processDeleteConstraints / GetEntityBucket for child stores (store_crud.go, store.go)",
         "bbolt: sorted key/bucket store, cursor order = byte order, rollback of a failed Update (compared, not verified)",
         "extraction (ExtrOcamlBasic only) + extraction/c05_driver.ml + drv_common.ml",
-        "Go harness cmd/storageharness/c05.go (store definitions, generators, observers) and this comparison",
+        "Go harness cmd/storageharness/c05.go, c05_hier.go (store definitions, generators, observers) and this comparison",
     ]
     c.assumptions = [
         "every error returned by a link operation aborts its bolt transaction (the model does not represent the writes a failing operation made before it failed)",
         "SetLinkCount is not called with a negative count (documented API misuse) and counts stay within int32 (machine bound of the payload)",
         "entity ids are non-empty; the two stores are distinct (no self-links)",
+        "store hierarchies have two levels (root store and its child stores); a child store of a child store is not modelled (design/C05.md, candidate defects)",
     ]
     proof_ok = c.proof_step(FILES)
     try:
@@ -373,7 +469,7 @@ def main(argv):
     distinct = set()
     differing = 0
     reported = {}
-    kinds = {"H": 0, "S": 0}
+    kinds = {"H": 0, "S": 0, "T": 0}
     txs_total = 0
     out_of_guard = 0
     for line, i, m in zip(cases, impl, modl):
@@ -428,7 +524,10 @@ def main(argv):
                      "in several committed/rolled-back transactions over universes of 1-5 ids per side (ids with common prefixes, NUL and "
                      "0xff bytes), weighted toward collisions: duplicate links, removing absent links, SetLinks permutations with "
                      "repetition, links to missing and to never-created entities, decrement below zero, SetLinkCount 0, deleting either end, "
-                     "re-creating after delete, rare int32 boundary counts. Non-trivial: some transaction committed a state holding at "
+                     "re-creating after delete, rare int32 boundary counts. T: seeded random histories over parent/child store hierarchies "
+                     "(10 fixed topologies + random ones: 0-2 plain/extended child stores per side, 1-3 collection pairs on stores of any "
+                     "level), creates and deletes through any store of a family, the link/count operations on every pair, scripted "
+                     "link-then-delete-either-end transactions. Non-trivial: some transaction committed a state holding at "
                      "least one link or count; distinct by case text")
     idx = sorted(set((0, min(len(cases) - 1, kinds.get("S", 0)), len(cases) // 2, len(cases) - 1)))
     c.cov["samples"] = [dict(case=cases[k][:600], impl=impl[k][:600], model=modl[k][:600]) for k in idx]
